@@ -253,6 +253,51 @@ Definition multiplex_signals (l : list (msignal * mplex)) : option (list msignal
   | Some m => assign_roles (m_name m) l
   end.
 
+(* ---------- role re-assignment on a live signal ---------- *)
+
+(* The state the role API acts on: the role fields of the signal and its `multiplex` attribute.
+   Signal.multiplex_setter(value) as a state transformer: it first resets mux_val and is_multiplexer, then applies the
+   new role; for 'Multiplexor' it also writes self.multiplex.  It never touches mux_val_grp / muxer_for_signal.
+   Its return value is `value` itself (None, int(value), 'Multiplexor'). *)
+Definition set_role (st : msignal * mplex) (x : mplex) : msignal * mplex :=
+  let s := fst st in
+  (mkM (m_sig s) (fst (multiplex_setter x)) (snd (multiplex_setter x)) (m_grp s) (m_parent s),
+   match x with MxMux => MxMux | _ => snd st end).
+
+(* the two ways callers use it: `s.multiplex_setter(x)` and `s.multiplex = s.multiplex_setter(x)` (as the constructor) *)
+Inductive role_op := OpSet (x : mplex) | OpAssign (x : mplex).
+Definition op_arg (op : role_op) : mplex := match op with OpSet x => x | OpAssign x => x end.
+Definition apply_op (st : msignal * mplex) (op : role_op) : msignal * mplex :=
+  match op with
+  | OpSet x => set_role st x
+  | OpAssign x => (fst (set_role st x), x)
+  end.
+
+(* histories on a frame: an operation on the i-th signal, or Frame.multiplex_signals() (which leaves the `multiplex`
+   attributes alone); None = multiplex_signals would store a string in mux_val (outside the model) *)
+Inductive frame_op := FSig (i : nat) (op : role_op) | FMuxSignals.
+Fixpoint update_nth {A} (i : nat) (f : A -> A) (l : list A) : list A :=
+  match l, i with
+  | [], _ => []
+  | x :: r, O => f x :: r
+  | x :: r, S j => x :: update_nth j f r
+  end.
+Definition apply_frame_op (st : option (list (msignal * mplex))) (op : frame_op) : option (list (msignal * mplex)) :=
+  match st with
+  | None => None
+  | Some l =>
+      match op with
+      | FSig i o => Some (update_nth i (fun s => apply_op s o) l)
+      | FMuxSignals =>
+          match multiplex_signals l with
+          | None => None
+          | Some sigs => Some (combine sigs (map snd l))
+          end
+      end
+  end.
+Definition run_history (ctor : list (signal * mplex)) (ops : list frame_op) : option (list (msignal * mplex)) :=
+  fold_left apply_frame_op ops (Some (map (fun p => (new_msignal (fst p) (snd p), snd p)) ctor)).
+
 (* ---------- specification vocabulary ---------- *)
 
 (* the raw integer a signal carries in payload d (None for float fields) *)
